@@ -299,6 +299,44 @@ def classify(case, target):
     return None
 
 
+def other_dialect(c, stats):
+    """ratio / derived / nested / graph-level formulas with `/` over INTEGER components, compiled for a dialect whose `/` is integer division on integers (sqlite)
+    and executed there (stdlib sqlite3): the values must be those of the DuckDB query (true division), i.e. the formula applied to the component values"""
+    import sqlite3
+    from sidemantic import Dimension, Metric, Model
+    from sidemantic.sql.generator import SQLGenerator
+    for k in range(4 if c.tier == "quick" else 30):
+        rows = [(i + 1, c.rng.choice(["a", "b", None]), c.rng.choice([None, 1, 2, 3, 4, 7]), c.rng.choice([0, 1])) for i in range(c.rng.choice([3, 5, 8]))]
+        L = dbutil.fresh_layer()
+        L.conn.execute("create table t(id int, s varchar, v int, w int)")
+        L.conn.executemany("insert into t values (?,?,?,?)", rows)
+        s3 = sqlite3.connect(":memory:")
+        s3.execute("create table t(id int, s varchar, v int, w int)")
+        s3.executemany("insert into t values (?,?,?,?)", rows)
+        f = c.rng.choice([None, 0])
+        L.add_model(Model(name="t", table="t", primary_key="id", dimensions=[Dimension(name="s", type="categorical")],
+                          metrics=[Metric(name="rev", agg="sum", sql="v"), Metric(name="n", agg="count"), Metric(name="done", agg="sum", sql="w"),
+                                   Metric(name="rate", type="ratio", numerator="done", denominator="n"), Metric(name="d1", type="derived", sql="rev / n"),
+                                   Metric(name="d2", type="derived", sql="(rev + done) / n * 100"), Metric(name="d3", type="derived", sql="rate * 2 + d1", fill_nulls_with=f),
+                                   Metric(name="r2", type="ratio", numerator="rev", denominator="done")]))
+        L.add_metric(Metric(name="g1", type="derived", sql="t.rev / t.n"))
+        L.add_metric(Metric(name="g2", type="ratio", numerator="t.done", denominator="t.rev"))
+        for mets in (["t.rate", "t.d1"], ["t.d2", "t.d3", "t.r2"], ["g1", "g2"]):
+            for dims in ([], ["t.s"]):
+                try:
+                    want = L.conn.execute(L.compile(metrics=mets, dimensions=dims)).fetchall()
+                    sql = SQLGenerator(L.graph, dialect="sqlite").generate(metrics=mets, dimensions=dims)
+                    got = s3.execute(sql).fetchall()
+                except Exception as e:
+                    c.notes.append("sqlite run failed: %s" % str(e)[:100])
+                    continue
+                stats["other_dialect"] = stats.get("other_dialect", 0) + 1
+                canon = lambda rs: sorted([tuple(None if x is None else (round(float(x), 6) if isinstance(x, (int, float)) and not isinstance(x, bool) else x) for x in r) for r in rs], key=str)
+                if canon(want) != canon(got):
+                    c.violation("a ratio / derived metric over integer components has another value in the SQL generated for sqlite (integer division) than the formula gives",
+                                {"kind": "dialect", "rows": rows, "metrics": mets, "dimensions": dims, "duckdb": [list(map(str, r)) for r in want], "sqlite": [list(map(str, r)) for r in got], "sqlite_sql": sql[-700:]})
+
+
 def run(c):
     c.trusted += ["modelled, not verified: Model/Formula.v (text expansion, formula evaluation) is hand-written; tied by (a) comparing `build` with the text _build_metric_sql returns, "
                   "(b) evaluating formulas over the implementation's own component columns",
@@ -420,7 +458,8 @@ def run(c):
         c.known("C06-K2")
     elif k2:
         c.violation("a derived metric over the same measure name on two models expands to invalid SQL", {"kind": "k2"})
-    c.obligation("oracle: composite == formula over its own components; unrelated additions change nothing", not c.violations, "correspondence")
+    other_dialect(c, stats)
+    c.obligation("oracle: composite == formula over its own components; unrelated additions change nothing; the same values from the SQL generated for sqlite", not c.violations, "correspondence")
     if per_case and cases:
         for case, info in zip(cases, per_case):
             if info["queries"] and len(c.samples) < 3 and len(case["comps"]) >= 2:
